@@ -98,3 +98,9 @@ func TestReplayDeterminism(t *testing.T) {
 	}
 	t.Logf("%d executions, replays identical", len(recs))
 }
+
+func TestFastGoid(t *testing.T) {
+	if !vrt.FastGoid() {
+		t.Log("fast goroutine-id path not available; using runtime.Stack")
+	}
+}
